@@ -4,7 +4,7 @@ from ..core import f2b, b2f, run_harness, run_driver
 from .. import samples as S, sample_checks as SC, exact as X
 
 MODULE = "Momtrop.Props.C19"
-THEOREMS = []
+THEOREMS = ["Momtrop.C19.narrowing_only_in_draw", "Momtrop.C19.before_draw_independent"]
 RULE = ("the real generic code instantiated with (i) a scalar that logs every to_f64 with the provenance of the narrowed value, debug off: "
         "exactly the three narrowings of the Gamma draw (shape, coordinate 2E-2, tolerance); (ii) a double-double scalar (+ - * / sqrt to "
         "~106 bits): u, L, inverse, u-vectors, v recomputed in exact rationals from the double-double Feynman parameters must agree far "
